@@ -15,7 +15,9 @@ RULE = ("sequences of 1-7 inputs mixing acceptable items (each with a unique tex
         "right after answering, immediately or after a delay, while the client pauses or not between "
         "interactions, so that exit detection races both ways. Compared: per interaction the input recorded, "
         "skipped or not, the lines returned by the line reader (captured by wrapping _result_lines in the "
-        "driver), the run id; the number of runs and the status returned by close(). Non-trivial = at least one "
+        "driver), the run id; the number of runs and the status returned by close(); the input validators on "
+        "every text over a small bracket alphabet up to length 5/6; the S-expression decoder on generated answer "
+        "lines, random truncations of them and malformed lines. Non-trivial = at least one "
         "failure and 3 inputs; distinct = canonical JSON.")
 EXHAUSTIVE = {"quick": False, "thorough": False}
 EXPLANATION = ("Alignment is a theorem about the model of the line reader and the interaction loop for every sequence "
@@ -27,7 +29,8 @@ ASSUMPTIONS = [
     "earlier line matching them (the stand-in's answers are of this form; the theorem states it as wf_block)",
     "process creation, pipes, poll() and wait() behave as documented (not modelled); timing shows up only as the "
     "choice between 'served by a restarted processor' and 'written to an exiting processor and lost'",
-    "the S-expression decoding of tsdb-stdout answers is checked by the oracle only",
+    "the S-expression decoder of tsdb-stdout answers (util.SExpr.parse, ace._sexpr_data) is modelled for ASCII "
+    "text without floats; a truncated line raising IndexError is the case the implementation catches itself",
 ]
 TRUSTED = ["the stand-in processor harness/fake/fake_ace.py and its log",
            "the driver's wrapper around ACEProcess._result_lines (monkey-patched in the harness process only)"]
@@ -36,12 +39,13 @@ LEVEL_TEXT = ("Proof (Coq, no axioms) about the model of ACEProcess.interact: fo
               "lines of a response are exactly (a prefix of) what the processor wrote for that very request, never "
               "another's, as long as complete answers are well-formed blocks; nothing is left unread between "
               "interactions; unacceptable inputs are skipped without touching the processor; after an exit the next "
-              "served request runs under a new run id; close() returns 0 or the exit status. The model is tied to "
+              "served request runs under a new run id; close() returns 0 or the exit status; decoding a printed "
+              "tsdb-stdout answer line (nested lists, dotted pairs, integers, symbols, quoted strings with any "
+              "characters) returns exactly the printed pairs. The model is tied to "
               "delphin/ace.py by kernel-checked correspondence against a scripted stand-in processor under both "
               "race outcomes; result extraction, absence of exceptions and hangs, and run bookkeeping are checked "
               "on the real classes by the oracle.")
-LEVEL_NOTE = ("Partial: the operating system (pipes, exit detection) is not modelled; S-expression decoding is "
-              "oracle-checked. One defect (no restart after a failure in the default protocol and in the "
+LEVEL_NOTE = ("Partial: the operating system (pipes, exit detection) is not modelled. One defect (no restart after a failure in the default protocol and in the "
               "generator) was repaired by a fix: commit.")
 TECHNIQUE = "Coq proof (alignment invariant of the reader/interaction state machine) + kernel-checked correspondence against a scripted stand-in + oracle"
 DESIGN_REF = "DESIGN.md section 6, C19"
@@ -83,10 +87,69 @@ def gen(rng, tier):
     for t in ("parse", "generate"):
         for d in BAD_PARSE + BAD_MRS + [" a ", "[ a ]", "x [ a [ b ] ] y [ c ]", "[ a ] tail", "head [ a ]", "[[ a ]]"]:
             cases.append({"k": "valid", "task": t, "datum": d})
+    # every text over a small bracket alphabet up to length 5 (quick) / 6 (thorough): balanced,
+    # unbalanced, nested, with text before, between and after the brackets
+    import itertools
+    maxlen = 5 if tier == "quick" else 6
+    for n in range(0, maxlen + 1):
+        for t in itertools.product("[]a ", repeat=n):
+            cases.append({"k": "valid", "task": "generate", "datum": "".join(t)})
+    for d in ["[ TOP: h0 RELS: < [ _rain_v_1 LBL: h1 ARG0: e2 ] >", "pre [ a [ b ] ] post ] x", "[ a ] [ b", "] [ a ]",
+              "[[[ a ]]", "[ a ]]", "x [ a [ b ] c"]:
+        for t in ("parse", "generate"):
+            cases.append({"k": "valid", "task": t, "datum": d})
+    cases.extend(_gen_sexpr(rng, tier))
+    return cases
+
+
+SX_SYMS = [":ninputs", ":p-input", ":readings", ":results", ":result-id", ":mrs", ":derivation", ":error",
+           ":total", "x", "a-b", "-", "a\\ b", ":k\\)", "+1"]
+SX_STRS = ["", "w1 barks", "[ TOP: h0 RELS: < [ \"x\" ] > ]", "(root (a \"b\" 3))", "back\\slash", ";", ".",
+           "a\nb", "  padded  ", "{[(", "\\\"", "q"]
+
+
+def _sx_text(rng, depth):
+    """(text, always quoted?) of a random S-expression value as a processor might print it"""
+    k = rng.random()
+    if depth <= 0 or k < 0.45:
+        j = rng.random()
+        if j < 0.3:
+            return str(rng.choice([0, 1, 7, 42, 100, -3, -15, 2024, 7]))
+        if j < 0.65:
+            return '"%s"' % rng.choice(SX_STRS).replace("\\", "\\\\").replace('"', '\\"')
+        return rng.choice(SX_SYMS)
+    if k < 0.65:
+        return "(%s . %s)" % (_sx_text(rng, depth - 1), _sx_text(rng, depth - 1))
+    return "(%s)" % " ".join(_sx_text(rng, depth - 1) for _ in range(rng.choice([0, 1, 2, 3, 3, 4])))
+
+
+def _gen_sexpr(rng, tier):
+    """answer lines of the tsdb-stdout protocol, every kind of truncation of them (an exiting
+    processor), and malformed lines"""
+    cases = []
+    n = 40 if tier == "quick" else 600
+    for i in range(n):
+        pairs = ["(%s . %s)" % (rng.choice(SX_SYMS[:9]), _sx_text(rng, 3)) for _ in range(rng.randrange(1, 5))]
+        sep = rng.choice([" ", " ", "  ", ""])
+        line = sep.join(pairs)
+        if rng.random() < 0.15:
+            line = " " + line + " "
+        cases.append({"k": "sexpr", "line": line})
+        for _ in range(3):
+            cases.append({"k": "sexpr", "line": line[:rng.randrange(0, len(line) + 1)]})
+        if rng.random() < 0.3:
+            j = rng.randrange(0, len(line) + 1)
+            cases.append({"k": "sexpr", "line": line[:j] + rng.choice(["[", ";", "\\", "{", ")", "(", '"', " . "]) + line[j:]})
+    for l in ["", " ", "x", "(a b c)", "((a) . 3)", "(a . 12", "(a . -)", "(a . 007)", "(1 . 2)", "(a . \".\")",
+              "(a \".\" b)", "(a . (b . c . d))", "(a . b)(c . d)", "(a . b) x", "(a\t.\nb)", "(a . b\\\nc)",
+              "(a . 1.5)", "(a . 1e3)", "(a . 3)"]:
+        cases.append({"k": "sexpr", "line": l})
     return cases
 
 
 def nontrivial(c):
+    if c["k"] == "sexpr":
+        return len(c["line"]) >= 10
     if c["k"] != "ace":
         return True
     return len(c["inputs"]) >= 3 and any(b["b"] != "ok" for b in c["behaviours"][:len(c["inputs"])])
@@ -149,7 +212,36 @@ def _run(c):
         shutil.rmtree(top, ignore_errors=True)
 
 
+def _sx_json(v):
+    if isinstance(v, bool):
+        raise ValueError("bool")
+    if isinstance(v, int):
+        return {"i": v}
+    if isinstance(v, float):
+        return {"f": repr(v)}
+    if isinstance(v, str):
+        return {"s": v}
+    if isinstance(v, tuple):
+        return {"p": [_sx_json(v[0]), _sx_json(v[1])]}
+    if isinstance(v, list):
+        return {"l": [_sx_json(x) for x in v]}
+    raise ValueError(type(v).__name__)
+
+
+def _observe_sexpr(c):
+    import logging
+    logging.disable(logging.CRITICAL)
+    from delphin import ace
+    try:
+        pairs = list(ace._sexpr_data(c["line"]))
+    except Exception as e:            # anything but the IndexError the decoder itself catches
+        return {"raised": type(e).__name__}
+    return {"pairs": [[k, _sx_json(v)] for k, v in pairs]}
+
+
 def observe(c):
+    if c["k"] == "sexpr":
+        return _observe_sexpr(c)
     if c["k"] == "valid":
         from delphin import ace
         if c["task"] == "parse":
@@ -275,9 +367,34 @@ def known_match(case, failure, known):
 TASK = {"parse": "TParse", "generate": "TGenerate", "transfer": "TTransfer"}
 
 
+def _has_float(j):
+    if "f" in j:
+        return True
+    return any(_has_float(x) for x in j.get("p", []) + j.get("l", []))
+
+
+def _c_sx(j):
+    if "i" in j:
+        return "(SInt %s)" % cZ(j["i"])
+    if "s" in j:
+        return "(SStr %s)" % cstr(j["s"])
+    if "p" in j:
+        return "(SPair %s %s)" % (_c_sx(j["p"][0]), _c_sx(j["p"][1]))
+    return "(SList %s)" % clist(j["l"], _c_sx)
+
+
 def coq_case(c, o):
     if "exc" in o:
         raise ValueError("harness")
+    if c["k"] == "sexpr":
+        if any(ord(ch) > 127 for ch in c["line"]):
+            return None
+        if "raised" in o:
+            return app("CSexpr", cstr(c["line"]), "None")
+        if any(_has_float(v) for _, v in o["pairs"]):
+            return None               # floats are outside the model
+        return app("CSexpr", cstr(c["line"]),
+                   "(Some %s)" % clist(o["pairs"], lambda kv: "(%s, %s)" % (cstr(kv[0]), _c_sx(kv[1]))))
     if c["k"] == "valid":
         return app("CValid", TASK[c["task"]], cstr(c["datum"]), cstr(o["sent"]))
     evs = events(c, o)
